@@ -99,7 +99,11 @@ Defs == <<
   [name |-> "shorthand-of-param", setup |-> <<EAsg("a", N(10)), EAsg("f", ELam(<<Req("a")>>, ERec(<<RShort("a")>>)))>>],
   [name |-> "captures-null-bool", setup |-> <<EAsg("g", ELit(Null)), EAsg("h", ELit(Bool(FALSE))), EAsg("f", Lam1(EList(<<EBin("coalesce", G, X), EUn("not", EId("h"))>>)))>>],
   [name |-> "captured-spread",   setup |-> <<EAsg("g", EList(<<N(1), N(2)>>)), EAsg("h", ERec(<<RStatic(<<12>>, N(1))>>)), EAsg("f", Lam1(EList(<<EList(<<ESpread(G), X>>), ERec(<<RSpreadE(EId("h")), RStatic(<<13>>, X)>>)>>)))>>],
-  [name |-> "captured-key",      setup |-> <<EAsg("g", ELit(Str(<<12, 2, 13>>))), EAsg("f", Lam1(ERec(<<RDyn(G, X)>>)))>>]
+  [name |-> "captured-key",      setup |-> <<EAsg("g", ELit(Str(<<12, 2, 13>>))), EAsg("f", Lam1(ERec(<<RDyn(G, X)>>)))>>],
+  \* an optional or rest parameter of an inner function re-binds the name of a captured value
+  [name |-> "inner-optional-param-shadows-capture", setup |-> <<EAsg("g", N(10)), EAsg("f", Lam1(EList(<<G, ECall(ELam(<<Req("y"), Prm("g", "opt")>>, EBin("coalesce", G, Y)), <<X>>)>>)))>>],
+  [name |-> "inner-rest-param-shadows-capture", setup |-> <<EAsg("g", N(10)), EAsg("f", Lam1(EList(<<G, ECall(ELam(<<Prm("g", "rest")>>, G), <<X, Plus(X, N(1))>>)>>)))>>],
+  [name |-> "inner-optional-given-shadows-capture", setup |-> <<EAsg("g", N(10)), EAsg("f", Lam1(Plus(G, ECall(ELam(<<Req("y"), Prm("g", "opt")>>, Plus(G, Y)), <<X, X>>))))>>]
 >> \o
 \* every string up to length 3 over { double quote, single quote, backslash, a } as a captured value
 [i \in 1..Len(QStrSeq) |-> [name |-> "captures-string", setup |-> <<EAsg("g", ELit(Str(QStrSeq[i]))), EAsg("f", Lam1(EList(<<X, G, EBin("add", G, ELit(Str(<<12>>)))>>)))>>]]
